@@ -44,6 +44,8 @@ def generate(rng):
     if cfg["n"] >= 3 and rng.random() < 0.3:
         deco = sample_constraints(rng, cfg["n"])
     cfg["decorate"] = deco
+    if deco and rng.random() < 0.3:
+        cfg["decorate2"] = sample_constraints(rng, cfg["n"], max_pairs=2)     # decorated once more, with its own factor
     cfg["n2"] = cfg["n"] if rng.random() < 0.5 else rng.randint(max(2, cfg["params"]["n_clusters"]), 12)
     # no float32 inputs here: path() then computes its affinity in single precision and the GEMINI accumulates in mixed
     # precision, which is a conditioning matter (C17), not a matter of which gradient formula is used
@@ -86,6 +88,7 @@ class GradOracle:
         self.model = harness.model
         self.fam = FAMILIES[cfg["family"]]
         self.deco = deco
+        self.decos = [deco] if deco else []
         self.coord_rs = coord_rs
         self.judge = set()
         self.global_step = 0
@@ -108,13 +111,13 @@ class GradOracle:
             s = float(self.h.sim_gemini.real.evaluate(P, Ab))
         else:
             s = ref_gemini(self.spec[0], self.spec[1], P, Ab)
-        if self.deco:
-            f = self.deco["factor"]
-            for (i, j) in self.deco["cannot_link"]:
+        for deco in self.decos:
+            f = deco["factor"]
+            for (i, j) in deco["cannot_link"]:
                 if i in ids and j in ids:
                     a, b = ids.index(i), ids.index(j)
                     s += f * 0.5 * np.sum((P[a] - P[b]) ** 2)
-            for (i, j) in self.deco["must_link"]:
+            for (i, j) in deco["must_link"]:
                 if i in ids and j in ids:
                     a, b = ids.index(i), ids.index(j)
                     s -= f * 0.5 * np.sum((P[a] - P[b]) ** 2)
@@ -284,8 +287,19 @@ def execute(record):
             except ValueError:
                 res.probe("decoration_rejected")
                 deco = None
+        deco2 = cfg.get("decorate2") if deco else None
+        if deco2:
+            try:
+                with quiet():
+                    decorate(model, deco2)
+                h.pairs = h.pairs + [tuple(p) for p in deco2["must_link"] + deco2["cannot_link"]]
+                res.probe("stacked_decorations")
+            except ValueError:
+                deco2 = None
         h.wrap_batchify()
         oracle = GradOracle(res, world, h, cfg, deco, np.random.RandomState(faults.get("coord_seed", 0)))
+        if deco2:
+            oracle.decos.append(deco2)
         oracle.judge_rs = np.random.RandomState(faults.get("judge_seed", 0))
         oracle.p_judge = faults.get("p_judge", 1.0)
         world.step_hooks.append(oracle.on_step)
